@@ -99,6 +99,10 @@ def check(run: Run) -> None:
     rt = strip_sites(fa.return_term())
     pm = need("process_method_call")
     fpm = ctx.analysis(pm)
+    from ..lib import site_owner
+
+    pm, _pm_inv = site_owner(m, ctx, pm, "process_method_callbacks")
+    fpm = ctx.analysis(pm)
     cs = [c for c in calls_in(pm) if isinstance(c.func, ast.Attribute) and c.func.attr == "process_method_callbacks"]
     run.check(len(cs) == 1, "C09.R1", pm, pm.node, "process_method_call runs the callbacks once", f"{len(cs)} callback runs in process_method_call")
     for c in cs:
@@ -146,8 +150,10 @@ def check(run: Run) -> None:
         run.check(ok, "C09.R5", vc, stmt_of(e.call) if e.owner is vc else vc.node, "function processors only for registered function names", "process_function_call is reached for names that are not registered")
 
     # the node a callback returns must get a recorded type, otherwise callbacks of methods chained on it never fire
+    from ..lib import final_delegate
+
     for name in ("process_function_call", "process_parameterized_method_call", "process_method_call"):
-        fi = need(name)
+        fi = final_delegate(m, need(name))  # the function that produces the result (a private helper the work was moved to)
         fa_ = ctx.analysis(fi)
         ft = ("attr", ("param", fi.pos_params[0]), "_found_types")
         keys = set()
